@@ -793,16 +793,32 @@ func c14Directed(out *verifh.Out, r *verifh.Rand) {
 		}
 		out.Case(w.caseLine())
 	})
-	// WITNESS 1 of Properties.v on the implementation: an early-tagged peer (3)
-	// is out of grace, hence a candidate; it connects after the snapshot; the
-	// trim closes the new connection inside its fresh grace period
+	// FIXED CORPUS CASE (defect repaired by "fix: connmgr: re-check the grace
+	// period in the trim's selection loop"; schedule w1_sched of Properties.v): an
+	// early-tagged peer (3) is out of grace, hence a candidate; it connects
+	// after the snapshot; the old selection loop closed the new connection
+	// inside its fresh grace period (monitor clause 37).  The repaired loop
+	// skips the entry and closes another candidate.
 	synctest.Test(c14T, func(t *testing.T) {
 		w := c14New(c14Cfg{1, 3, 5, 1, dts}, r, out)
 		defer w.close()
-		for _, o := range []c14Op{T(3, 0, 1), C(1, 0), C(2, 0), A(5)} {
+		for _, o := range []c14Op{T(3, 0, -1), C(1, 0), C(2, 0), A(5)} { // value -1: first in every sort order
 			w.exec(o)
 		}
 		w.execDuring([]c14Op{C(3, 1)})
+		if w.duringAt >= 0 {
+			kept := true
+			for _, pc := range w.pending {
+				if pc == [2]int{3, 1} {
+					kept = false
+				}
+			}
+			if kept {
+				out.Cover("during.corpus_w1_connection_opened_after_snapshot_is_kept")
+			} else {
+				out.Cover("during.corpus_w1_connection_opened_after_snapshot_was_closed")
+			}
+		}
 		for _, o := range []c14Op{D(3, 1), trim} {
 			w.exec(o)
 		}
